@@ -325,8 +325,8 @@ class Sched:
     blocked on something the harness does not model (a lock other than RollLog.lock): it is not enabled until it
     reports; the others go on.  This never happens on a tree that only uses RollLog.lock."""
 
-    PATIENCE = 2.0
-    GIVE_UP  = 30.0
+    PATIENCE = 15.0     # (generous: a starved machine must not make a runnable thread look blocked)
+    GIVE_UP  = 120.0
 
     def __init__(self, prefix=(), lenient=False):
         self.prefix    = tuple(prefix)
